@@ -79,7 +79,7 @@ CHECKS = {
         "params": {"mode": "hostile"},
     },
     "C09": {
-        "claim": "two-stage per-operation fault sweep made possible by deterministic replay: each scenario (a seed of the C06/C07 workload) is first run fault-free to count its transport operations and steps, then re-run once for every NewMessage / send / receive index with each fault kind (error on NewMessage, error on send, stalled send, receive error, EOF) and, at up to 60 evenly spaced steps, with Close, Close twice followed by new operations, and cancellation of every outstanding call; every run must finish all its operations, Close must return, no goroutine started by the connection may survive, no mutex nor the sender lock may stay held, nothing may panic",
+        "claim": "two-stage per-operation fault sweep made possible by deterministic replay: each scenario (a seed of the C06/C07 workload) is first run fault-free to count its transport operations and steps, then re-run once for every NewMessage / send / receive index with each fault kind (error on NewMessage, error on send, stalled send, receive error, EOF) and, at up to 60 evenly spaced steps, with Close, Close twice followed by new operations, and cancellation of every outstanding call; every run must finish all its operations, Close must return, no goroutine started by the connection may survive, no mutex nor the sender lock may stay held, nothing may panic; the stream topology covers both NewStreamTransport and NewPackedStreamTransport (torn-write rule evaluated on the unpacked stream)",
         "engine": "rpcsim", "level": "fault_enumeration",
         "budget": {"quick": 40, "thorough": 1200},
         "min_runs": {"quick": 60},
@@ -90,7 +90,7 @@ CHECKS = {
         "coverage_extra": {"explanation": "exhaustive is per scenario: all transport operation indices of the fault-free run are swept (probes.sweep_cases / sweep_scenarios); scenarios themselves are sampled"},
     },
     "C07": {
-        "claim": "same simulated sessions as C06 biased to capability traffic (the same capability sent repeatedly, partial Releases, Finish with releaseResultCaps before or after the Return, Returns with releaseParamCaps, local AddRef/Release of imports racing with newly arriving references); conservation is checked from the wire history: peer reference counts never go negative, a Release never exceeds the references actually delivered, application capabilities are not released while the peer holds a reference and the connection is open, after an orderly wind-down every table is empty and every capability released, and after Close each capability has been released exactly once",
+        "claim": "same simulated sessions as C06 biased to capability traffic (the same capability sent repeatedly, partial Releases, Finish with releaseResultCaps before or after the Return, Returns with releaseParamCaps, local AddRef/Release of imports racing with newly arriving references); conservation is checked from the wire history: peer reference counts never go negative, a Release never exceeds the references actually delivered, application capabilities are not released while the peer holds a reference and the connection is open, after an orderly wind-down every table is empty and every capability released, and after Close each capability has been released exactly once; in the two-Conn topology: no application capability shut down while a caller holds a handle designating it, both Conns' question/answer/export/import/embargo tables empty once every handle is released and every call finished, every capability shut down exactly once",
         "engine": "rpcsim", "level": "exploration",
         "budget": {"quick": 30, "thorough": 900},
         "min_runs": {"quick": 12000},
@@ -99,7 +99,7 @@ CHECKS = {
         "params": {"mode": "caps"},
     },
     "C06": {
-        "claim": "seeded search over schedules and message timings of one real rpc.Conn against a spec-following model peer (Bootstrap, Calls to imports and to promised answers that have or have not returned, Finish before or after Return, Release) and 0-2 local caller tasks; a protocol monitor over the two-directional message history checks exactly one Return per question with the content the application produced, exactly-once resolution of local calls with the peer's result, no question id reuse before its Finish, and per-target delivery order",
+        "claim": "seeded search over schedules and message timings of one real rpc.Conn against a spec-following model peer (Bootstrap, Calls to imports and to promised answers that have or have not returned, Finish before or after Return, Release) and 0-2 local caller tasks; a protocol monitor over the two-directional message history checks exactly one Return per question with the content the application produced, exactly-once resolution of local calls with the peer's result, no question id reuse before its Finish, and per-target delivery order; the model peer also plays the embargo loop-back in both directions (answers with capabilities the Conn itself hosts, reflects the Conn's pipelined calls to them in order, relays their Returns, echoes and itself sends Disembargo) with an order oracle over local calls pipelined on one answer and an echo-after-reflection oracle; one run in four joins TWO real Conns over a pair of simulated transports with capabilities and callers on both sides (three-party paths, nested calls by implementations) and application-level oracles: exactly-once delivery to the designated capability, result content, per-handle / per-answer order, no connection loss in a fault-free session",
         "engine": "rpcsim", "level": "exploration",
         "budget": {"quick": 30, "thorough": 900},
         "min_runs": {"quick": 12000},
@@ -156,7 +156,7 @@ CHECKS = {
         "faults": ["alloc_fail", "exact_fit", "dirty_cap", "always_new_segment"],
     },
     "C18": {
-        "claim": "replica invariant: for capability-free structs reached by the simulated histories, Canonicalize must produce a valid single-segment message that decodes to an equal value, equals an independent canonicaliser byte for byte, is idempotent, and is identical for re-encodings in other layouts and version-padded copies; structs reaching a capability must be rejected",
+        "claim": "replica invariant: for capability-free structs reached by the simulated histories, Canonicalize must produce a valid single-segment message that decodes to an equal value, equals an independent canonicaliser byte for byte, is idempotent, and is identical for re-encodings in other layouts and version-padded copies; structs reaching a capability must be rejected; replicas include an encoding whose sub-word lists are followed by non-zero padding bytes",
         "engine": "buildsim", "level": "exploration",
         "budget": {"quick": 20, "thorough": 480},
         "min_runs": {"quick": 300000},
@@ -173,7 +173,7 @@ CHECKS = {
         "coverage_extra": {"explanation": "exhaustive is false for the batch as a whole: cut points are enumerated exhaustively per stream (see probes.streams_fully_enumerated and probes.cut_points_checked), streams themselves are sampled"},
     },
     "C14": {
-        "claim": "per generated sequence of 1-5 messages written by the real Encoder (packed or not), every cut point of the byte stream (exhaustive up to 1 KiB) and a read error are injected; the real Decoder (with and without buffer reuse, several MaxMessageSize values, all chunkings) must return exactly the complete frames, io.EOF only at a frame boundary and an error anywhere else; hostile headers are spliced in and the allocation of Decode and Unmarshal is bounded with runtime.MemStats",
+        "claim": "per generated sequence of 1-5 messages written by the real Encoder (packed or not), every cut point of the byte stream (exhaustive up to 1 KiB) and a read error are injected; the real Decoder (with and without buffer reuse, several MaxMessageSize values, all chunkings) must return exactly the complete frames, io.EOF only at a frame boundary and an error anywhere else; hostile headers are spliced in and the allocation of Decode and Unmarshal is bounded with runtime.MemStats; for every frame, MaxMessageSize values from 24 bytes below to 8 bytes above its exact size (header included): fits => decoded unchanged, does not fit => refused, and never more than MaxMessageSize bytes consumed from the reader by one Decode",
         "engine": "streamsim", "level": "fault_enumeration",
         "budget": {"quick": 20, "thorough": 480},
         "min_runs": {"quick": 15000},
@@ -183,7 +183,7 @@ CHECKS = {
         "coverage_extra": {"explanation": "exhaustive is false for the batch as a whole: cut points are enumerated exhaustively per stream (probes.streams_fully_enumerated), streams are sampled"},
     },
     "C12": {
-        "claim": "seeded search over schedules of 1-4 caller tasks against a real server.Server (every mutex acquisition and channel wake-up is a schedule point) with tape-chosen policies, ack/return timings, cancellations, pipelined calls on unreturned answers and shutdown while calls run; start order, ack gating, the concurrency cap, exactly-once completion with the implementation's own result, pipelined delivery order and shutdown semantics are checked at every event and over the recorded history",
+        "claim": "seeded search over schedules of 1-4 caller tasks against a real server.Server (every mutex acquisition and channel wake-up is a schedule point) with tape-chosen policies, ack/return timings, cancellations, pipelined calls on unreturned answers and shutdown while calls run; start order, ack gating, the concurrency cap, exactly-once completion with the implementation's own result, pipelined delivery order and shutdown semantics are checked at every event and over the recorded history; in half of the runs the callers use the Server directly and another task calls Server.Shutdown at an arbitrary point (calls queued behind the admission gate or waiting for a slot): Shutdown returns only after every running implementation returned, the user's Shutdown ran exactly once, nothing starts afterwards; a call that was never delivered must have been cancelled or shut out",
         "engine": "srvsim", "level": "exploration",
         "budget": {"quick": 25, "thorough": 600},
         "min_runs": {"quick": 50000},
